@@ -1534,6 +1534,23 @@ impl<'a> PG<'a> {
             }
             self.decls.push(d);
         }
+        // a second declaration of a trait under the same name with a DIFFERENT set of associated
+        // types (fewer, none, or one more): a redeclaration must be reported as an error whichever
+        // of the two comes first
+        if self.r.chance(1, 6) {
+            let traits: Vec<usize> = self.decls.iter().enumerate().filter(|(_, d)| d.sort == Sort::Trait && !d.assoc.is_empty()).map(|(i, _)| i).collect();
+            if !traits.is_empty() {
+                let mut d = self.decls[traits[self.r.usize_below(traits.len())]].clone();
+                match self.r.usize_below(3) {
+                    0 => d.assoc.clear(),
+                    1 => {
+                        d.assoc.pop();
+                    }
+                    _ => d.assoc.push(("C".to_string(), vec![])),
+                }
+                self.decls.push(d);
+            }
+        }
         // shuffle
         for i in (1..self.decls.len()).rev() {
             let j = self.r.usize_below(i + 1);
